@@ -17,8 +17,11 @@ PID = 'C17'
 def run_spec(V, label, c):
     wd = E.workdir('c17')
     try:
+        # a cfg file cannot hold negative numbers: sets go through a wrapper module
+        mc = E.write_mc(wd, 'Ranking3MR', {'MC_PairVals': c['PairVals'], 'MC_RelVals': c['RelVals']})
+        c = dict(c, PairVals='<- MC_PairVals', RelVals='<- MC_RelVals')
         cfg = E.write_cfg(os.path.join(wd, 'mc.cfg'), constants=c, invariants=['IsPermutationPrefix', 'Complete', 'Progress', 'Emit'])
-        res = E.run_tlc('Ranking3MR', cfg, timeout=1200, coverage=True)
+        res = E.run_tlc(mc, cfg, timeout=1200, coverage=True)
         E.require_ok(res, label)
         V.add_tlc(res, label)
         V.tlc_violation(res, label)
